@@ -116,8 +116,13 @@ macro_rules! drive {
     } else if c.via_share {
       let b: $boxty = subj.clone().box_it();
       let sh = b.$share();
-      std::mem::forget(sh.clone().take(1).actual_subscribe(Probe::new(901, &Log::new())));
-      subj.next(V::I(-1));
+      if c.steps.len() % 2 == 0 {
+        // ... or a sibling that came and went before the first item
+        sh.clone().actual_subscribe(Probe::new(901, &Log::new())).unsubscribe();
+      } else {
+        std::mem::forget(sh.clone().take(1).actual_subscribe(Probe::new(901, &Log::new())));
+        subj.next(V::I(-1));
+      }
       sh.box_it()
     } else {
       subj.clone().box_it()
@@ -552,7 +557,9 @@ pub fn run(cfg: &Cfg, rep: &mut Report) {
   if cfg.only_case.is_none() || cfg.only_case.as_deref().map_or(false, |c| c.starts_with("above")) {
     let mut idx = 0usize;
     for threads in [false, true] {
-      for below in 0..3u8 {
+      for below in 0..6u8 {
+        // 3..5: the same with collect() above the status
+        let (collect, below) = (below >= 3, below % 3);
         for items in 0..4usize {
           for terminal in 0..3u8 {
             idx += 1;
@@ -567,11 +574,11 @@ pub fn run(cfg: &Cfg, rep: &mut Report) {
             rep.count("status_above_an_early_terminator_cases", 1);
             rep.events += items as u64 + 1;
             if items >= 1 && terminal > 0 {
-              rep.nontrivial.insert(hash64(&("above", threads, below, items, terminal)));
+              rep.nontrivial.insert(hash64(&("above", threads, collect, below, items, terminal)));
             }
             let term_name = ["none", "complete", "error"][terminal as usize];
-            if let Some(why) = status_above(threads, below, items, terminal) {
-              rep.violation("wrong_status", &format!("complete_status[above {}]", ["take(0)", "take(1)", "take(2)"][below as usize]), &id, json!({"threads_form": threads, "items": items, "terminal": term_name, "why": why}));
+            if let Some(why) = status_above(threads, collect, below, items, terminal) {
+              rep.violation("wrong_status", &format!("complete_status[{}above {}]", if collect { "below collect, " } else { "" }, ["take(0)", "take(1)", "take(2)"][below as usize]), &id, json!({"threads_form": threads, "collect_above_the_status": collect, "items": items, "terminal": term_name, "why": why}));
             }
           }
         }
@@ -773,12 +780,16 @@ fn race_case(r: &mut Rng) -> Option<(String, String, serde_json::Value, bool)> {
 }
 
 macro_rules! status_above_drive {
-  ($subscriber:ident, $cell:expr, $below:expr, $items:expr, $terminal:expr) => {{
+  ($subscriber:ident, $boxty:ty, $boxobs:ty, $collect:expr, $cell:expr, $below:expr, $items:expr, $terminal:expr) => {{
     let cell = $cell;
     let c2 = cell.clone();
-    let src = create(move |s: $subscriber<_>| {
+    let src = create(move |s: $subscriber<$boxobs>| {
       *c2.lock().unwrap() = Some(s);
     });
+    // optionally an aggregating stage above the status: collect() hands over its one item and
+    // its completion back to back when the source completes
+    let src: $boxty = src.box_it();
+    let src: $boxty = if $collect { src.collect::<Vec<V>>().map(V::L).box_it() } else { src };
     let (o, status) = src.complete_status();
     let log = Log::new();
     // take(0) is finished from the start, take(1) after the first item, take(2) after the second
@@ -813,17 +824,17 @@ macro_rules! status_above_drive {
 }
 
 /// Some(why) when the status above take(1)/first()/take_while disagrees with what the source did
-fn status_above(threads: bool, below: u8, items: usize, terminal: u8) -> Option<String> {
+fn status_above(threads: bool, collect: bool, below: u8, items: usize, terminal: u8) -> Option<String> {
   use std::sync::Mutex;
   let r = catch(|| {
     if threads {
       let cell: Arc<Mutex<Option<SubscriberThreads<_>>>> = Arc::new(Mutex::new(None));
-      status_above_drive!(SubscriberThreads, cell, below, items, terminal)
+      status_above_drive!(SubscriberThreads, rxrust::ops::box_it::BoxOpThreads<V, E>, rxrust::observer::BoxObserverThreads<V, E>, collect, cell, below, items, terminal)
     } else {
       // (the local subscriber is not Send; a Mutex in an Arc is just a cell here)
       #[allow(clippy::arc_with_non_send_sync)]
       let cell: Arc<Mutex<Option<Subscriber<_>>>> = Arc::new(Mutex::new(None));
-      status_above_drive!(Subscriber, cell, below, items, terminal)
+      status_above_drive!(Subscriber, rxrust::ops::box_it::BoxOp<'static, V, E>, rxrust::observer::BoxObserver<'static, V, E>, collect, cell, below, items, terminal)
     }
   });
   match r {
